@@ -261,6 +261,43 @@ Proof.
   rewrite <- (app_nil_r bs) at 2. change [SLASH] with (cpath []). apply (from_base_cpath Hb). constructor.
 Qed.
 
+(* a canonical path strictly below cpath bs is longer than it *)
+Lemma cpath_app_longer bs cs :
+  Forall name cs -> cs <> [] -> length (cpath bs) < length (cpath (bs ++ cs)).
+Proof.
+  intros Hc Hne. rewrite cpath_app. destruct cs as [|c cs]; [congruence|].
+  assert (Hpos : 0 < length (intercalate [SLASH] (c :: cs))).
+  { pose proof (Forall_inv Hc) as (Hcne & _). destruct cs as [|d cs]; cbn [intercalate].
+    - destruct c; [congruence|cbn; lia].
+    - rewrite app_length. destruct c; [congruence|cbn; lia]. }
+  destruct bs as [|b bs].
+  - unfold cpath. cbn [length intercalate] in *. lia.
+  - rewrite app_length. cbn [length]. lia.
+Qed.
+
+(* isRoot holds exactly when the cleaned absolute virtual path is "/" ; otherwise what
+   reaches the base is STRICTLY below B (never B itself) *)
+Theorem is_root_iff B base_cwd p :
+  clean_abs_path B ->
+  exists vcwd, cur_dir Linux B base_cwd = Some vcwd
+    /\ (is_root Linux B base_cwd p = true <-> abs Linux vcwd p = [SLASH])
+    /\ (is_root Linux B base_cwd p = false -> to_base_path Linux B base_cwd p <> Some B).
+Proof.
+  intros HB. destruct (clean_abs_path_cpath HB) as (bs & Hb & ->).
+  destruct (to_base_spec base_cwd p Hb) as (ws & cs & Hw & Hc & Hcd & Habs & Hto).
+  exists (cpath ws). split; [exact Hcd|]. unfold is_root. rewrite Hto, Habs. split.
+  - split.
+    + intros H. apply str_eqb_eq in H.
+      destruct cs as [|c cs]; [reflexivity|].
+      pose proof (@cpath_app_longer bs (c :: cs) Hc ltac:(discriminate)) as Hl. rewrite H in Hl. lia.
+    + intros H. change [SLASH] with (cpath []) in H.
+      destruct cs as [|c cs].
+      * rewrite app_nil_r. apply str_eqb_refl.
+      * exfalso. pose proof (@cpath_app_longer [] (c :: cs) Hc ltac:(discriminate)) as Hl.
+        cbn [app] in Hl. rewrite H in Hl. lia.
+  - intros H Heq. apply str_eqb_neq in H. apply H. congruence.
+Qed.
+
 Theorem getwd_spec B base_cwd :
   (exists ws, Forall name ws /\ bp_getwd Linux B base_cwd = Some (cpath ws))
   /\ (clean_abs_path B -> has_base_path Linux B base_cwd = false -> bp_getwd Linux B base_cwd = Some [SLASH]).
